@@ -147,18 +147,32 @@ class _Proxy:
 
 def run_history(ctx, h):
     wit = {"history": h}
+    import copy as _copy
+
     kw = {}
+    shared_value = None
     if h["init"] is not None:
-        kw["class_"] = ht.HTML(h["init"]) if h.get("init_html") else h["init"]
+        shared_value = ht.HTML(h["init"]) if h.get("init_html") else h["init"]
+        kw["class_"] = shared_value
     if h.get("style") is not None:
         kw["style"] = h["style"]
     tag = ht.div("c", id="keep", **kw)
+    # other holders of the same value object: another element built with it, and a copy of the element made before the helpers run
+    other = ht.span(**kw)
+    twin = _copy.copy(tag)
+    held = (str(other.attrs.get("class")), str(other.attrs.get("style")), str(twin.attrs.get("class")), str(twin.attrs.get("style")))
     model = {"tokens": None if h["init"] is None else h["init"].split()}
     for op in h["ops"]:
         if not step(ctx, tag, model, op, wit):
             return False
         if tag.attrs.get("id") != "keep":
             ctx.violation("helper-disturbs-other-attrs", "id attribute changed", wit)
+            return False
+        ctx.count("oracle.other_holders")
+        now = (str(other.attrs.get("class")), str(other.attrs.get("style")), str(twin.attrs.get("class")), str(twin.attrs.get("style")))
+        if now != held or (shared_value is not None and str(shared_value) != h["init"]):
+            ctx.violation("helper-disturbs-other-elements", "a class/style helper on one element changed the value held by another element, by a copy made earlier, or the caller's own value object",
+                          dict(wit, op=op))
             return False
     return True
 
@@ -177,7 +191,9 @@ def css_name(k):
 
 
 CSS_KEYS = ["color", "font_size", "fontSize", "backgroundColor", "background_color", "MozBoxSizing", "WebkitTransition", "x", "A",
-            "aB_cD", "a__b", "border_top_leftRadius", "zIndex", "margin_", "_webkit_x", "line_height", "é_x"]
+            "aB_cD", "a__b", "border_top_leftRadius", "zIndex", "margin_", "_webkit_x", "line_height", "é_x",
+            # custom properties and vendor prefixes (only reachable with **): converted like every other name
+            "--mainBg", "--brand_color", "--x", "-webkit-Box_x", "__x", "--", "a-B", "--Ü_x"]
 CSS_VALS = ["red", "12px", 0, 3, 1.5, -2, None, None, "", "a b", "url(x;y)", "10%", 1e21]
 
 
